@@ -347,6 +347,31 @@ def run(rep, facts, tier):
                     rep.add('C13.R3', 'C13.R3:pass-through:%s' % fn, False,
                             '%s pushes back a whole cell it popped (%s): the "result" keeps the tags of that argument' % (short(fn), expr_str(e)[:70]),
                             fn, t.get('at'))
+    # ... nor leaves its argument where it is: a word that peeks at the top cell and returns Ok on some path without popping or
+    # pushing hands the caller back the tagged argument as its "result" (`255 ^hex >int` stays a hex-printing value)
+    from ..pathq import exists_path_avoiding, error_blocks
+    from ..core import return_defs
+    STACK_EFFECT = ('state::State::push_data', 'state::State::pop_data', 'state::State::dup_data', 'state::State::swap_data',
+                    'state::State::drop_data', 'state::State::rot_data', 'state::State::over_data')
+    for w_ in fx.registry()['words']:
+        fn = w_['target']
+        f = fx.fns.get(fn)
+        if f is None:
+            continue
+        tops = [bb for bb, t in f.calls() if callee_of(t) == 'state::State::top_data']
+        if not tops:
+            continue
+        eff = {bb for bb, t in f.calls() if callee_of(t) in STACK_EFFECT}
+        oks = {bb for (bb, i, cls, d) in return_defs(f) if cls == 'ok'}
+        bad = None
+        for tb in tops:
+            pth = exists_path_avoiding(f, tb, lambda b: b in oks, eff | error_blocks(f))
+            if pth:
+                bad = pth
+        rep.add('C13.R3', 'C13.R3:peek-and-keep:%s' % w_['name'], bad is None,
+                'every Ok path after the peek pops or pushes' if bad is None else
+                'word `%s` looks at the top cell and can return Ok without replacing it (bb%s): the tagged argument stays as the result'
+                % (w_['name'], '->bb'.join(map(str, bad[:8]))), fn, w_['at'])
     rep.add('C13.R3', 'C13.R3:pass-through:none', True, 'none of the %d push_data sites in words hands back a whole popped cell' % n_push,
             None, None)
     rep.floor('C13.R3 push_data sites in words', n_push, 110)
